@@ -255,15 +255,41 @@ def locate_model(fold, field):
                                [j >= 0, G(j + 1) == G(j) + tj, z3.Implies(z3.And(0 <= p, p < G(j)), inst(K, j)),
                                 0 <= p, p < G(j + 1)],
                                z3.Or(inst(K, j + 1), inst(j, j + 1)), info))
+        # the element index is a (skolem) function of the position: its existence is the lemma just emitted
+        IDX = z3.Function(f"{fold.name}.idx[{view.name}]", z3.IntSort(), z3.IntSort())
+        from .models import symlist_generic_elem
+        if getattr(I, 'generic_depth', 0):
+            # inside a quantified body (the position is a bound variable): no case split, no instance facts; the
+            # defining property of the index function is one quantified fact, carried by every VC
+            s0 = z3.Solver()
+            s0.set('timeout', 2000)
+            s0.add(*getattr(I, 'generic_ranges', []))
+            s0.add(z3.Not(z3.And(zp >= 0, zp < F(view.n))))
+            if s0.check() != z3.unsat and not I.st.implied(z3.And(zp >= 0, zp < F(view.n))):
+                raise Unsupported("locate inside a quantified body at a position not known to be in range")
+            if 'idx_axiom' not in s:
+                s['idx_axiom'] = True
+                I.st.undo_log.append(lambda: s.pop('idx_axiom', None))
+                q = z3.Int(f"{fold.name}.idx.q")
+                from . import explore
+                explore.QUANTIFIERS_IN_USE[0] = True
+                I.st.assume(z3.ForAll([q], z3.Implies(
+                    z3.And(0 <= q, q < F(view.n)),
+                    z3.And(0 <= IDX(q), IDX(q) < view.n, F(IDX(q)) <= q, q < F(IDX(q) + 1),
+                           F(IDX(q) + 1) == F(IDX(q)) + fold.term(view, IDX(q)))), patterns=[IDX(q)]), lazy=True)
+            if field is None:
+                return SInt(IDX(zp))
+            return symlist_generic_elem(I, L, IDX(zp)).fields[field]
         if not I.branch(z3.And(zp >= 0, zp < F(view.n))):
             return None
-        k = I.st.fresh_int(f"{fold.name}.at")
+        k = IDX(zp)
         I.st.assume(z3.And(0 <= k, k < view.n))
         fold.unfold(I, view, k)
         for v in range(view.v):
             fold.unfold(I, ListView(L, v), k)
         I.st.assume(z3.And(F(k) <= zp, zp < F(k + 1)))
-        from .models import symlist_generic_elem
+        if field is None:
+            return SInt(k)
         return symlist_generic_elem(I, L, k).fields[field]
     model.fold = fold
     return model
